@@ -4658,7 +4658,8 @@ class Generator:
         while stack:
             node = stack.pop()
 
-            if type(node) is binary_type:
+            # A nested division goes through div_sql again: its safe / typed handling is per node
+            if type(node) is binary_type and (node is expression or binary_type is not exp.Div):
                 op_func = node.args.get("operator")
                 if op_func:
                     op = f"OPERATOR({self.sql(op_func)})"
